@@ -18,12 +18,12 @@ PROPS = {
     "C03": {"mon": ["C03"], "proj": STORE_OPS + ["rjoin"], "kind": "store", "focus": ["any", "far", "many", "rjoin"], "sexh": [0, 1, 3, 7],
             "what": "every handle-taking storage access through a dead or stale handle behaves as absent and changes nothing"},
     "C04": {"mon": ["C04"], "proj": STORE_OPS + ["count", "empty", "mask", "clear", "drain", "slice", "createw"], "kind": "store",
-            "focus": ["any", "far", "many", "any"], "sexh": list(range(12)),
+            "focus": ["any", "far", "many", "churn", "churn"], "sexh": list(range(12)),
             "what": "every storage kind is observably a plain map from live entity to component (results, mask, count, slices)"},
     "C05": {"mon": ["C05"], "proj": ["del_now", "del_batch", "del_atomic", "del_all", "maintain", "mask", "createw", "create", "create_iter", "reg", "lazy_create"],
             "kind": "store", "focus": ["many", "any", "lazy", "many"], "sexh": [1, 6],
             "what": "a deletion taking effect purges the entity's components from every registered storage and nothing else; new entities start empty"},
-    "C08": {"mon": ["C08"], "proj": ["drop_world"], "ledger": True, "kind": "store", "focus": ["ledger", "any", "lazy", "many"], "sexh": [0, 1, 2, 5],
+    "C08": {"mon": ["C08"], "proj": ["drop_world"], "ledger": True, "kind": "store", "focus": ["ledger", "any", "lazy", "many", "churn"], "sexh": [0, 1, 2, 5],
             "what": "every value moved into the world is returned or destroyed exactly once; nothing is leaked once the world is dropped"},
     "C09": {"mon": ["C09"], "proj": ["lazy_ins", "lazy_ins_all", "lazy_rem", "lazy_create", "lazy_exec", "maintain", "in"], "kind": "store",
             "focus": ["lazy", "lazy", "lazy", "many"], "sexh": [1],
@@ -31,9 +31,9 @@ PROPS = {
     "C12": {"mon": ["C12"], "proj": ["events", "emit"], "kind": "store", "focus": ["tracked", "tracked", "tracked", "many"], "sexh": [6, 7, 8, 9, 10, 11],
             "what": "tracked storages emit exactly the insert/modify/remove events of each operation, in order"},
     "C19": {"mon": ["C19", "C08"], "proj": ["dump", "ins", "entry_or", "del_now", "del_batch", "del_all", "maintain", "clear", "drop_world", "get", "mask", "createw"],
-            "ledger": True, "kind": "store", "focus": ["fault", "fault", "fault", "fault"], "sexh": [],
+            "ledger": True, "kind": "store", "focus": ["fault", "fault", "fault", "faultchurn", "faultchurn"], "sexh": [],
             "what": "after a caught destructor panic no value is destroyed twice, no destroyed value is visible, and the world keeps conforming to the storage specification"},
-    "C13": {"mon": ["C13"], "proj": ["rjoin"], "kind": "store", "focus": ["rjoin", "rjoin", "tracked", "many"], "sexh": [1, 7, 10],
+    "C13": {"mon": ["C13"], "proj": ["rjoin", "events"], "kind": "store", "focus": ["rjoin", "rjoin", "rjoin", "tracked", "many"], "sexh": [1, 7, 10],
             "what": "restricted storages visit exactly the members, read/write like direct lookups, apply the storage rule to other-entity lookups and flag only mutable fetches"},
 }
 
@@ -66,13 +66,13 @@ def plan(prop, tier, seed):
         foci = spec["focus"]
         if tier == "quick":
             for i, f in enumerate(foci):
-                runs.append((f"sgen-{f}-{i}", ["sgen", str(seed * 1000 + i), "900" if f == "fault" else "350", "45", f]))
+                runs.append((f"sgen-{f}-{i}", ["sgen", str(seed * 1000 + i), "900" if f in ("fault", "faultchurn") else "350", "120" if f in ("churn", "faultchurn") else "45", f]))
             for k in spec["sexh"][:4]:
                 runs.append((f"sexh{k}/3", ["sexh", str(k), "3"]))
         else:
             for rep in range(4):
                 for i, f in enumerate(foci):
-                    runs.append((f"sgen-{f}-{rep}.{i}", ["sgen", str(seed * 1000 + 10 * rep + i), "2500", "90", f]))
+                    runs.append((f"sgen-{f}-{rep}.{i}", ["sgen", str(seed * 1000 + 10 * rep + i), "2500", "160" if f in ("churn", "faultchurn") else "90", f]))
             for k in spec["sexh"]:
                 runs.append((f"sexh{k}/3", ["sexh", str(k), "3"]))
                 for s in range(4):
